@@ -116,19 +116,38 @@ func c12PacketConn(c *vf.Case) {
 	nsend := r.Range(1, 3)
 	type sender struct {
 		fd, port int
+		id       uint32
+		ip       [4]byte
 		seq      uint32
 	}
 	var senders []*sender
 	var reusedAddr *net.UDPAddr
 	for i := 0; i < nsend; i++ {
-		fd, p, err := rawpeer.UDP4([4]byte{127, 0, 0, 1})
-		if err != nil {
-			c.Failf("harness-setup", "%v", err)
-			return
+		ip := [4]byte{127, 0, 0, 1}
+		fd, p := -1, 0
+		if i > 0 && r.Bool() {
+			// another host of a redundant feed: a different loopback address, the SAME source port as the first sender
+			ip = [][4]byte{{127, 0, 0, 2}, {127, 1, 0, 1}, {127, 0, 1, 1}, {127, 2, 0, 1}}[r.Intn(4)]
+			if f, e := syscall.Socket(syscall.AF_INET, syscall.SOCK_DGRAM|syscall.SOCK_NONBLOCK|syscall.SOCK_CLOEXEC, 0); e == nil {
+				if e = syscall.Bind(f, &syscall.SockaddrInet4{Addr: ip, Port: senders[0].port}); e == nil {
+					fd, p = f, senders[0].port
+					c.Count("senders_on_another_address_with_the_same_port", 1)
+				} else {
+					syscall.Close(f)
+				}
+			}
+		}
+		if fd < 0 {
+			var err error
+			fd, p, err = rawpeer.UDP4(ip)
+			if err != nil {
+				c.Failf("harness-setup", "%v", err)
+				return
+			}
 		}
 		defer syscall.Close(fd)
 		rawpeer.SetBufs(fd, 4<<20, 4<<20)
-		senders = append(senders, &sender{fd: fd, port: p})
+		senders = append(senders, &sender{fd: fd, port: p, id: uint32(i + 1), ip: ip})
 	}
 	c.Logf("ListenPacket(%q) -> port %d, %d senders", form, port, nsend)
 	sizes := []int{1, 2, 17, 1472, 1473, 8192, 65507}
@@ -157,7 +176,7 @@ func c12PacketConn(c *vf.Case) {
 			if r.Chance(1, 2) {
 				n = r.Range(1, 2000)
 			}
-			queue = append(queue, sent{s, s.seq, c12Stamp(uint32(s.port), s.seq, n, gen)})
+			queue = append(queue, sent{s, s.seq, c12Stamp(s.id, s.seq, n, gen)})
 			s.seq++
 		}
 		send := func() {
@@ -217,7 +236,7 @@ func c12PacketConn(c *vf.Case) {
 			if n >= c12Hdr {
 				sid, seq := binary.BigEndian.Uint32(buf[4:]), binary.BigEndian.Uint32(buf[8:])
 				for k := range queue {
-					if uint32(queue[k].s.port) == sid && queue[k].seq == seq {
+					if queue[k].s.id == sid && queue[k].seq == seq {
 						got = &queue[k]
 					}
 				}
@@ -250,8 +269,8 @@ func c12PacketConn(c *vf.Case) {
 				}
 			}
 			fip, fport := addrIPPort(from)
-			if fport != got.s.port || !fip.Equal(net.IPv4(127, 0, 0, 1)) {
-				c.Failf("datagram-sender-address-differs", "datagram from 127.0.0.1:%d reported as coming from %v", got.s.port, from)
+			if fport != got.s.port || !fip.Equal(net.IP(got.s.ip[:])) {
+				c.Failf("datagram-sender-address-differs", "datagram from %v:%d reported as coming from %v", net.IP(got.s.ip[:]), got.s.port, from)
 				return
 			}
 			if n < len(got.data) {
@@ -273,10 +292,11 @@ func c12PacketConn(c *vf.Case) {
 			s := senders[r.Intn(len(senders))]
 			n := sizes[r.Intn(len(sizes))]
 			data := c12Stamp(7, uint32(round*10+k), n, gen)
-			to := &net.UDPAddr{IP: net.IPv4(127, 0, 0, 1), Port: s.port}
+			to := &net.UDPAddr{IP: net.IPv4(s.ip[0], s.ip[1], s.ip[2], s.ip[3]), Port: s.port}
 			if r.Bool() {
 				// allocation-averse callers keep one address value and update it in place between writes
 				reusedAddr.Port = s.port
+				reusedAddr.IP = net.IPv4(s.ip[0], s.ip[1], s.ip[2], s.ip[3])
 				to = reusedAddr
 				c.Count("writes_with_an_address_value_updated_in_place", 1)
 			}
@@ -313,7 +333,7 @@ func c12PacketConn(c *vf.Case) {
 			if !ok {
 				for _, o := range senders {
 					if on, _, oerr := syscall.Recvfrom(o.fd, rb, 0); oerr == nil && o != s {
-						c.Failf("datagram-written-to-wrong-destination", "a %d-byte write addressed to port %d arrived (%d bytes) at port %d", n, s.port, on, o.port)
+						c.Failf("datagram-written-to-wrong-destination", "a %d-byte write addressed to %v:%d arrived (%d bytes) at %v:%d", n, net.IP(s.ip[:]), s.port, on, net.IP(o.ip[:]), o.port)
 						return
 					}
 				}
@@ -721,6 +741,13 @@ func c12TwoPeersOneBatch(c *vf.Case, ioc *sonic.IO) {
 		return
 	}
 	defer b.Close()
+	if aport == bport {
+		// both peers set SO_REUSEPORT, and the kernel's automatic port choice may then hand the second one the port the
+		// first already holds (seen once in several thousand cases): which of the two sockets receives a datagram is
+		// then the kernel's choice, and the scenario says nothing
+		c.Count("two_peer_probes_skipped_same_automatic_port", 1)
+		return
+	}
 	snd, _, err := rawpeer.UDP4([4]byte{127, 0, 0, 1})
 	if err != nil {
 		c.Failf("harness-setup", "%v", err)
